@@ -1,4 +1,5 @@
 import KyupyVerif.Model.Sdf
+import KyupyVerif.Model.SdfText
 /-! Driver extension for C14: evaluates the SDF model on one request line.
 
 `sdf <mode> <which> <nlines> <cells> <pins> <ics>`
@@ -9,7 +10,13 @@ import KyupyVerif.Model.Sdf
 * pins  = `~` | cell `:` pin `:` line (`;` ..)*          (names percent-encoded; `%` alone = empty string)
 * ics   = `~` | c1 `:` p1 `:` c2 `:` p2 `:` line (`;` ..)*  with p = `~` for "no pin"
 Answer: `raise` when a guard of the model fails (the real code raises there), else the non-zero coordinates
-`d.l.ip.op=v` sorted, `,`-separated (`~` when the array is all zero). -/
+`d.l.ip.op=v` sorted, `,`-separated (`~` when the array is all zero).
+
+`sdfparse <pct-encoded text>` (text level, Model/SdfText.lean): answer `syntax` when the grammar model rejects, else
+`<status> <tree> <raw>`: status = `ok` | `raise` (`SdfFile.ok`: what the transformer raises on); tree = designs `|` cells
+with designs = `~` | name (`,` name)*, cells in the block format above but entry = kind `:` a `:` b `:` vals (kind `I` =
+IOPATH, `C` = INTERCONNECT) and number fields as percent-encoded text (`%` = empty field); raw = the block list of
+`SdfFile.toRaw` in the format of the `sdf` command, or `-` when a number is not a whole number of thousandths. -/
 namespace KV.Drv.Sdf
 open KV.Sdf
 
@@ -57,7 +64,46 @@ def showArr (A : Arr) (nlines : Nat) : String :=
       if v == 0 then none else some s!"{d}.{l}.{if ip then 1 else 0}.{if op then 1 else 0}={v}"
   if coords.isEmpty then "~" else ",".intercalate coords
 
+/-! ### text level -/
+def pctEnc (cs : List Char) : String :=
+  if cs.isEmpty then "%" else
+  String.ofList (cs.flatMap fun c =>
+    if c.isAlphanum || c == '_' then [c] else
+      let n := c.toNat
+      if n < 256 then ['%', (Nat.toDigits 16 (n / 16)).headD '0', (Nat.toDigits 16 (n % 16)).headD '0']
+      else '%' :: 'u' :: (Nat.toDigits 16 n ++ [';']))
+
+def joinOr (sep : String) (l : List String) : String := if l.isEmpty then "~" else sep.intercalate l
+
+def showTTriple : KV.SdfText.TTriple → String
+  | none => "E"
+  | some (a, b, c) => s!"{pctEnc a},{pctEnc b},{pctEnc c}"
+def showTEntry (e : KV.SdfText.TEntry) : String :=
+  s!"{if e.io then "I" else "C"}:{pctEnc e.a}:{pctEnc e.b}:{joinOr "/" (e.vals.map showTTriple)}"
+def showTCell (c : KV.SdfText.TCell) : String :=
+  joinOr "," (c.insts.map pctEnc) ++ "|" ++ joinOr "+" (c.delays.map fun es => joinOr "&" (es.map showTEntry))
+def showTree (f : KV.SdfText.SdfFile) : String :=
+  joinOr "," (f.designs.map pctEnc) ++ "|" ++ joinOr ";" (f.cells.map showTCell)
+
+def showRawTriple (t : RawTriple) : String :=
+  if t.isEmpty then "E" else ",".intercalate (t.map fun | none => "x" | some v => toString v)
+def showRawEntry (e : RawEntry) : String :=
+  s!"{pctEnc e.a.toList}:{pctEnc e.b.toList}:{joinOr "/" (e.vals.map showRawTriple)}"
+def showRawCell (c : RawCell) : String :=
+  joinOr "," (c.insts.map fun n => pctEnc n.toList) ++ "|" ++ joinOr "+" (c.delays.map fun es => joinOr "&" (es.map showRawEntry))
+
+def handleText (args : List String) : String :=
+  match args with
+  | [t] =>
+    match KV.SdfText.parseTree (pctDecode t.toList) with
+    | none => "syntax"
+    | some f =>
+      let raw := match f.toRaw with | none => "-" | some B => joinOr ";" (B.map showRawCell)
+      s!"{if f.ok then "ok" else "raise"} {showTree f} {raw}"
+  | _ => "bad-args"
+
 def handle (cmd : String) (args : List String) : Option String :=
+  if cmd == "sdfparse" then some (handleText args) else
   if cmd != "sdf" then none else
   match args with
   | [mode, which, nlines, cells, pins, ics] =>
